@@ -1,6 +1,5 @@
 (* C06, value level: the hypotheses are satisfiable (Examples), each of them is needed (counterexamples when one is
-   dropped), and the candidate validated for a rollback is NOT the restored configuration when the change deleted a
-   container (counterexample; candidate for a finding). *)
+   dropped); regression example for finding F-24 (the candidate validated for a rollback before the repair). *)
 From Coq Require Import List NArith Bool String.
 From OC Require Import Base.Bytes Model.P2Pure Proofs.P2PureRollbackAdc Proofs.P2PureRollbackBool.
 Import ListNotations.
@@ -53,26 +52,32 @@ Example ex_rollback_values :
    (B "/old/x", true, 0); (B "/sys/name", false, 1); (B "/new", true, 0); (B "/gone", true, 0)].
 Proof. vm_compute. reflexivity. Qed.
 
-(** * the candidate validated for the rollback *)
-(* Stored: the leaf /a/c = 1.  Transaction 5 deletes the container /a (not itself a stored value).  The rollback values
-   are {/a/c = 1}; after the change's commit the stored map is {/a deleted}.  reconcileValidate's Rollback case
-   overwrites the loaded values with the rollback values (changeValues[path] = rollbackValue), so the candidate is
-   {/a deleted, /a/c = 1} and BuildTree prunes /a/c: the model plugin validates the EMPTY configuration, not the
-   restored one.  (The rollback's commit does restore /a/c: applyChangeToConfig drops the tombstone there.) *)
+(** * the candidate validated for the rollback: regression for finding F-24 (repaired in /repo by 3342112) *)
+(* reconcileValidate's Rollback case BEFORE the repair: the rollback values overwrote the loaded values
+   (changeValues[path] = rollbackValue).  Stored: the leaf /a/c = 1.  Transaction 5 deletes the container /a (not itself
+   a stored value).  The rollback values are {/a/c = 1}; after the change's commit the stored map is {/a deleted}.  The
+   old candidate was {/a deleted, /a/c = 1} and BuildTree pruned /a/c: the model plugin validated the EMPTY
+   configuration, not the restored one.  The repaired function (applyChangeToConfig drops the tombstone) shows it. *)
+Definition candidate_rb_before_F24 (persisted rb : cmap) : cmap :=
+  fold_left (fun cand '(p, v) => insert p v cand) rb persisted.
 Definition cx_m : cmap := [lv "/a/c" "1" 1].
 Definition cx_ch : cmap := [tb "/a" 5].
 
-Example candidate_refuted :
+Example candidate_regression_F24 :
   rollback_wf 5 6 cx_m cx_m cx_ch = true /\
   let rb := rollback_of cx_m cx_ch in
   let m1 := commit_merge 0 5 cx_m cx_m cx_ch in
   rb = [lv "/a/c" "1" 1] /\ m1 = [tb "/a" 5] /\
   live cx_m = [(B "/a/c", B "1")] /\
-  live (candidate_rb (overlay [] m1) rb) = [] /\
+  live (candidate_rb_before_F24 (overlay [] m1) rb) = [] /\
+  live (candidate_rb (overlay [] m1) rb) = [(B "/a/c", B "1")] /\
   live (commit_merge 0 6 m1 (overlay [] m1) rb) = [(B "/a/c", B "1")].
 Proof. vm_compute. repeat split; reflexivity. Qed.
 
-Example candidate_refuted_hypothesis : deletes_storedb cx_m cx_ch = false.
+(* the candidate of the larger example, rollback values taken in another order *)
+Example ex_candidate :
+  let m1 := commit_merge 3 5 ex_m ex_vw ex_ch in
+  live (candidate_rb (overlay [] m1) (permute 4711 (rollback_of ex_vw ex_ch))) = live ex_vw.
 Proof. vm_compute. reflexivity. Qed.
 
 (** * every hypothesis is needed *)
@@ -101,13 +106,3 @@ Example clean_needed :
   let m1 := commit_merge 0 5 m m ch in
   live (commit_merge 0 6 m1 (overlay [] m1) (rollback_of m ch)) = [(B "/a/b", B "1")] /\ live m = [].
 Proof. vm_compute. repeat split; reflexivity. Qed.
-
-(* the statement "the rollback's candidate shows exactly the old view" is false under the hypotheses of the rollback
-   theorem alone *)
-Lemma candidate_statement_refuted :
-  exists ord1 i j m vw ch,
-    rollback_wf i j m vw ch = true /\
-    live (candidate_rb (overlay [] (commit_merge ord1 i m vw ch)) (rollback_of vw ch)) <> live vw.
-Proof.
-  exists 0, 5, 6, cx_m, cx_m, cx_ch. split; [vm_compute; reflexivity|]. vm_compute. discriminate.
-Qed.
